@@ -98,7 +98,7 @@ Proof.
     destruct (rhe_bounds (n * 2 ^ (- k)) d Hd) as [B1 B2].
     set (m := round_half_even (n * 2 ^ (- k)) d) in *.
     assert (RR : (r == inject_Z m / inject_Z (2 ^ (- k)))%Q).
-    { rewrite V, (pow2Q_neg k K). field. intro X. change 0%Q with (inject_Z 0) in X. apply inject_Z_injective in X. lia. }
+    { rewrite V, (pow2Q_neg k K). field. intro X. unfold Qeq in X. cbn [Qnum Qden inject_Z] in X. lia. }
     rewrite RR. apply frac_close; try assumption; lia.
   - (* e >= 3: the float would be at least 8 *)
     exfalso. assert (K : Z.max (e - 52) (-1074) = e - 52) by lia. rewrite K in V.
@@ -119,11 +119,73 @@ Proof.
       assert (M : 2 ^ 52 <= m) by (change (2 ^ 52) with 4503599627370496 in *; nia).
       assert (PS : 2 ^ (- (e - 52)) <= 2 ^ 49) by (apply Z.pow_le_mono_r; lia).
       assert (RR : (r == inject_Z m / inject_Z (2 ^ (- (e - 52))))%Q).
-      { rewrite V, (pow2Q_neg (e - 52) K0). field. intro X. change 0%Q with (inject_Z 0) in X. apply inject_Z_injective in X. lia. }
+      { rewrite V, (pow2Q_neg (e - 52) K0). field. intro X. unfold Qeq in X. cbn [Qnum Qden inject_Z] in X. lia. }
       rewrite RR in R3.
       assert (Q0 : (0 < inject_Z (2 ^ (- (e - 52))))%Q) by (change 0%Q with (inject_Z 0); rewrite <- Zlt_Qlt; exact PK).
       apply (Qmult_le_r _ _ _ Q0) in R3.
       assert (X : (inject_Z m / inject_Z (2 ^ (- (e - 52))) * inject_Z (2 ^ (- (e - 52))) == inject_Z m)%Q) by (field; lra).
       rewrite X in R3. change 3%Q with (inject_Z 3) in R3. rewrite <- inject_Z_mult, <- Zle_Qle in R3.
       change (2 ^ 52) with 4503599627370496 in *. change (2 ^ 49) with 562949953421312 in *. lia.
+Qed.
+
+Lemma f64_pos_nonneg : forall n d r, 0 < n -> 0 < d -> f64_pos n d = FNum r -> (0 <= r)%Q.
+Proof.
+  intros n d r Hn Hd H. assert (V := f64_pos_value n d r H). cbv zeta in V. rewrite V.
+  set (k := Z.max (ilog2_frac n d - 52) (-1074)) in *.
+  apply Qmult_le_0_compat.
+  - change 0%Q with (inject_Z 0). rewrite <- Zle_Qle.
+    destruct (Z.leb_spec 0 k).
+    + assert (0 < 2 ^ k) by (apply Z.pow_pos_nonneg; lia). apply rhe_nonneg; nia.
+    + assert (0 <= 2 ^ (- k)) by (apply Z.pow_nonneg; lia). apply rhe_nonneg; [nia|exact Hd].
+  - apply Qlt_le_weak. unfold pow2Q. apply Qpower_0_lt. reflexivity.
+Qed.
+
+(** ** what the ratio test of IsQuadTree means for the exact quotient of the two float64 cell sizes *)
+Theorem ratio_ok_bounds : forall prev cur, ratio_ok prev cur = true ->
+  exists a b, f64_dec prev = FNum a /\ f64_dec cur = FNum b /\ ~ (b == 0)%Q /\
+    ((199 # 100) - (1 # 2 ^ 50) <= a / b)%Q /\ (a / b <= (201 # 100) + (1 # 2 ^ 50))%Q.
+Proof.
+  intros prev cur H. unfold ratio_ok in H.
+  destruct (f64_dec prev) as [a|]; [|discriminate]. destruct (f64_dec cur) as [b|]; [|discriminate].
+  destruct (Qeq_bool b 0) eqn:EB; [discriminate|].
+  assert (NB : ~ (b == 0)%Q) by (intro X; apply Qeq_bool_iff in X; congruence).
+  exists a, b. split; [reflexivity|]. split; [reflexivity|]. split; [exact NB|].
+  destruct (f64 (a / b)) as [r|] eqn:EF; [|discriminate].
+  assert (LO : fnum gen_quadtree_ratio_lo = (8962163258467287 # 4503599627370496)%Q) by (vm_compute; reflexivity).
+  assert (HI : fnum gen_quadtree_ratio_hi = (1131529406376837 # 562949953421312)%Q) by (vm_compute; reflexivity).
+  rewrite LO, HI in H.
+  change (Qle_bool (8962163258467287 # 4503599627370496) (1131529406376837 # 562949953421312)) with true in H. cbv iota in H.
+  apply andb_true_iff in H. destruct H as [H1 H2]. apply Qle_bool_iff in H1. apply Qle_bool_iff in H2.
+  set (x := (a / b)%Q) in *.
+  unfold f64 in EF.
+  destruct (Z.eqb_spec (Qnum x) 0) as [Z0|Z0].
+  { exfalso. inversion EF; subst r. revert H1. unfold Qle. cbn. lia. }
+  destruct (Z.ltb_spec 0 (Qnum x)) as [P|P].
+  - assert (R1 : (1 <= r)%Q) by (eapply Qle_trans; [|exact H1]; unfold Qle; cbn; lia).
+    assert (R3 : (r <= 3)%Q) by (eapply Qle_trans; [exact H2|]; unfold Qle; cbn; lia).
+    assert (N := f64_pos_near (Qnum x) (Z.pos (Qden x)) r P ltac:(lia) EF R1 R3).
+    assert (XE : (inject_Z (Qnum x) / inject_Z (Z.pos (Qden x)) == x)%Q) by (rewrite <- Qmake_Qdiv; destruct x; reflexivity).
+    rewrite XE in N. apply Qabs_Qle_condition in N. destruct N as [N1 N2].
+    assert (C1 : ((199 # 100) - (1 # 2 ^ 50) <= (8962163258467287 # 4503599627370496) - (1 # 2 ^ 51))%Q) by (unfold Qle; cbn; lia).
+    assert (C2 : ((1131529406376837 # 562949953421312) + (1 # 2 ^ 51) <= (201 # 100) + (1 # 2 ^ 50))%Q) by (unfold Qle; cbn; lia).
+    change (2 ^ 51)%positive with 2251799813685248%positive in *. change (2 ^ 50)%positive with 1125899906842624%positive in *.
+    clearbody x. clear - H1 H2 N1 N2 C1 C2. split.
+    + eapply Qle_trans; [exact C1|]. lra.
+    + eapply Qle_trans; [|exact C2]. clear C1 C2 H1 N2. lra.
+  - exfalso. destruct (f64_pos (- Qnum x) (Z.pos (Qden x))) as [r'|] eqn:EP; [|discriminate].
+    assert (NN := f64_pos_nonneg (- Qnum x) (Z.pos (Qden x)) r' ltac:(lia) ltac:(lia) EP).
+    apply (f_equal (fun f => match f with FNum q => q | FInf _ => 0%Q end)) in EF. cbv beta iota in EF.
+    assert (RR : (r == - r')%Q) by (rewrite <- EF; apply Qred_correct).
+    assert ((0 < 8962163258467287 # 4503599627370496)%Q) by reflexivity. lra.
+Qed.
+
+Theorem ratio_beyond_tolerance_fails : forall prev cur a b,
+  f64_dec prev = FNum a -> f64_dec cur = FNum b ->
+  (a / b < (199 # 100) - (1 # 2 ^ 50))%Q \/ ((201 # 100) + (1 # 2 ^ 50) < a / b)%Q ->
+  ratio_ok prev cur = false.
+Proof.
+  intros prev cur a b Ha Hb H. destruct (ratio_ok prev cur) eqn:E; [|reflexivity]. exfalso.
+  destruct (ratio_ok_bounds prev cur E) as [a' [b' [Ha' [Hb' [_ [L U]]]]]].
+  rewrite Ha in Ha'. rewrite Hb in Hb'. inversion Ha'; inversion Hb'; subst a' b'.
+  destruct H as [H|H]; [apply (Qlt_not_le _ _ H L)|apply (Qlt_not_le _ _ H U)].
 Qed.
